@@ -333,7 +333,10 @@ class ProcessModel:
                 )
             )
 
-            self.initial_conditions.safe_save(process_path / "initial_conditions.ic")
+            if self.initial_conditions is not None:
+                self.initial_conditions.safe_save(
+                    process_path / "initial_conditions.ic"
+                )
         else:
 
             self.permeance_fits[0].save(
